@@ -58,7 +58,7 @@ public:
     };
 
     storage operator++(int) {
-        storage z{std::move(_gen->value())};
+        storage z{_gen->value()};
         _next = _gen->next();
         return z;
     }
